@@ -47,6 +47,7 @@ def handle (line : String) : String :=
   | "len" :: args => Driver.LenP.handle args
   | "mixed" :: args => Driver.MixP.handle args
   | "textflow" :: args => Driver.MixP.textHandle args
+  | "textvoid" :: args => Driver.MixP.voidHandle args
   | "width" :: args => Driver.WidthP.handle args
   | "widthspec" :: args => Driver.WidthP.handleSpec args
   | "refcmp" :: args => Driver.RefP.cmpHandle args
